@@ -22,7 +22,7 @@ CONSTANTS MaxFeatures,     \* optional features per program
           Allowed          \* kinds of optional features that may be added: subset of AllFeatures
 AllFeatures == {"steps", "comp", "cons", "lmi", "metrics", "part", "lmimetric", "unsent"}
 LmiSize(code) == CASE code = "L1" -> 1 [] code = "S3" -> 3 [] OTHER -> 2
-ConsCodes == {"pi", "pe", "pg", "pm", "pd", "fi", "ci", "dup", "dupf"}   \* dup: the SAME constraint object declared twice
+ConsCodes == {"pi", "pe", "pg", "pm", "pd", "fi", "ci", "dup", "dupf", "se"}   \* se: a direction of prescribed small size |e|^2 = 1/4096; dup: the SAME constraint object declared twice
 LmiCodes == {"S2", "D2", "L1", "N2", "S3", "F2"}
 ClassLmis(c) == IF c \in {4, 6, 7} THEN 1 ELSE IF c = 8 THEN 2 ELSE 0
 VARIABLES prog, solves, phase, epoch, sent, native, dualpos, cache, nClassLmi, nPartRows, hist
@@ -50,8 +50,8 @@ Feature ==
 Rep(x, n) == [i \in 1..n |-> x]
 Sc(src) == [src |-> src, k |-> "sc", n |-> 1]
 Lm(src, n) == [src |-> src, k |-> "lmi", n |-> n]
-PepCons(p) == SelectSeq(p.ucons, LAMBDA c : c \in {"pi", "pe", "pg", "pm", "pd", "dup", "dupf"})
-DupPep(p) == SelectSeq(p.ucons, LAMBDA c : c = "dup")
+PepCons(p) == SelectSeq(p.ucons, LAMBDA c : c \in {"pi", "pe", "pg", "pm", "pd", "dup", "dupf", "se"})
+DupPep(p) == SelectSeq(p.ucons, LAMBDA c : c \in {"dup", "se"})      \* codes that put two rows on the problem
 FunCons(p) == SelectSeq(p.ucons, LAMBDA c : c \in {"fi", "ci", "dupf"})
 PepLmis(p) == SelectSeq(p.lmis, LAMBDA c : c # "F2")
 FunLmis(p) == SelectSeq(p.lmis, LAMBDA c : c = "F2")
